@@ -154,7 +154,7 @@ pub fn format_buf(args: Vec<Rc<Object>>) -> Result<Collector, String> {
         } else {
             '\0'
         };
-        // inside a specifier, a '{' right before '<' or '>' is the fill character
+        // inside a specifier, a '{' or '}' right before '<' or '>' is the fill character
         let brace_is_fill = in_spec
             && in_spec_format
             && (next == '<' || next == '>')
@@ -169,7 +169,7 @@ pub fn format_buf(args: Vec<Rc<Object>>) -> Result<Collector, String> {
                 idx_fmt += 1;
             }
             continue;
-        } else if curr == '}' {
+        } else if curr == '}' && !brace_is_fill {
             // '}}' is an escape only outside a specifier: inside one, the
             // first '}' closes the specifier ("{}}}" is "{}" followed by "}}")
             if next == '}' && !in_spec {
